@@ -29,8 +29,8 @@ KINDMAP = {inspect.Parameter.POSITIONAL_ONLY: "posonly", inspect.Parameter.POSIT
            inspect.Parameter.VAR_KEYWORD: "varkw"}
 
 
-def render_params(params, recv):
-    out, seen_posonly, star_done = ([recv] if recv else []), False, False
+def render_params(params, recv, recv_ann=None):
+    out, seen_posonly, star_done = ([recv + (": " + recv_ann if recv_ann else "")] if recv else []), False, False
     po = [p for p in params if p["kind"] == "posonly"]
     pk = [p for p in params if p["kind"] == "poskw"]
     va = [p for p in params if p["kind"] == "varpos"]
@@ -71,7 +71,7 @@ def func_source(f, ind):
         lines.append(ind + "@property")
     ret = " -> " + f["ret_ann"] if f.get("ret_ann") else ""
     lines.append("%s%sdef %s(%s)%s:" % (ind, "async " if f.get("is_async") else "", f["name"],
-                                        render_params(f["params"], recv), ret))
+                                        render_params(f["params"], recv, f.get("recv_ann")), ret))
     lines.append(ind + ("    yield None" if f.get("is_gen") else "    return None"))
     return "\n".join(lines) + "\n\n"
 
@@ -191,9 +191,15 @@ def run_module_case(case):
                     rets.append(tr["ret"])
                 if tr.get("yld") is not None:
                     ylds.append(tr["yld"])
-            # the scenarios give every position ONE traced type (merging is C04's subject)
-            frec["tret"] = rets[0] if rets else ABSENT
-            frec["tyld"] = ylds[0] if ylds else ABSENT
+            # several traces of one function: the traced type of a position is the union of what was traced
+            # (the scenarios use plain classes here; merging of structured types is C04's subject)
+            def union_of(ts):
+                uniq = {absmodel.canon(t): t for t in ts}
+                if not uniq:
+                    return ABSENT
+                return list(uniq.values())[0] if len(uniq) == 1 else T("union", "", [], [uniq[k] for k in sorted(uniq)])
+            frec["tret"] = union_of(rets)
+            frec["tyld"] = union_of(ylds)
             if s is not None:
                 want = {"class": ["classmethod"], "static": ["staticmethod"], "property": ["property"]}.get(f["fkind"], [])
                 frec["decok"] = s["decorators"] == want
@@ -207,7 +213,7 @@ def run_module_case(case):
                     frec["cells"].append({
                         "pos": p.name, "self": has_self and idx == 0, "defnone": p.default is None,
                         "src": abs_or_absent(hints.get(p.name)) if annotated else ABSENT,
-                        "traced": merged[p.name][0] if p.name in merged else ABSENT,
+                        "traced": union_of(merged[p.name]) if p.name in merged else ABSENT,
                         "got": got.get(p.name, ABSENT)})
             rec["funcs"].append(frec)
         rec["extra"] = sorted({".".join(s["class_path"] + [s["name"]]) for s in ab["funcs"]
@@ -303,6 +309,24 @@ def gen_c12(tier, seed):
         ps = [] if fk == "property" else [{"name": "a", "kind": "poskw", "default": None}, {"name": "b", "kind": "poskw", "default": "None"}]
         f = {"name": "build", "container": ["Widget"], "fkind": fk, "params": ps, "traces": traces_for(ps)}
         cases.append({"funcs": [f], "strategy": "REPLICATE", "k": 0, "family": "c12_same_qualname_other_kind"})
+    # only positional-only parameters, long enough to wrap: the trailing `/` must survive the multi-line layout
+    for n in range(1, 5):
+        ps = [{"name": "positional_only_parameter_number_%d_%s" % (i, "x" * 22), "kind": "posonly", "default": None} for i in range(n + 2)]
+        for fk, cont in (("module", []), ("static", ["Cls"])):
+            f = {"name": "wrapped_posonly_%d_%s" % (n, fk), "container": cont, "fkind": fk, "params": ps, "traces": traces_for(ps)}
+            cases.append({"funcs": [f], "strategy": "REPLICATE", "k": 0, "family": "c12_wrapping_posonly"})
+    # two classes whose methods are traced in interleaved order (A.x, B.y, A.z, B.x ...)
+    for n in range(20 if tier == "quick" else 300):
+        names = ["x", "y", "z", "w"]
+        fs = []
+        for j in range(rng.randint(3, 6)):
+            cls = ["Alpha", "Beta", "Gamma"][j % (2 + n % 2)]
+            nm = names[(j + n) % 4] + ("" if j < 4 else "2")
+            if any(f["container"] == [cls] and f["name"] == nm for f in fs):
+                continue
+            ps = [{"name": "a", "kind": "poskw", "default": None}]
+            fs.append({"name": nm, "container": [cls], "fkind": "instance", "params": ps, "traces": traces_for(ps)})
+        cases.append({"funcs": fs, "strategy": "REPLICATE", "k": 0, "family": "c12_interleaved_classes"})
     # long names force wrapping at 120 columns; classes one and two levels deep
     for n in range(40 if tier == "quick" else 300):
         ps = rng.choice(sh)
@@ -346,6 +370,20 @@ def gen_c13(tier, seed):
             f = {"name": "g%d" % n, "container": cont, "fkind": fk, "params": params, "ret_ann": retann,
                  "is_gen": yld is not None, "traces": [{"args": targs, "ret": ret, "yld": yld}]}
             cases.append({"funcs": [f], "strategy": strategy, "k": 0, "family": "c13_matrix"})
+    # an annotated receiver: under OMIT it must carry no annotation like every other annotated position
+    for n, (fk, recv_ann) in enumerate([("instance", "'Cls'"), ("class", "type"), ("instance", "Any")] * (2 if tier == "quick" else 20)):
+        params = [{"name": "p0", "kind": "poskw", "default": None, "ann": "int" if n % 2 else None}]
+        f = {"name": "r%d" % n, "container": ["Cls"], "fkind": fk, "params": params, "recv_ann": recv_ann, "ret_ann": "int" if n % 3 == 0 else None,
+             "traces": [{"args": {"p0": STR}, "ret": STR, "yld": None}]}
+        cases.append({"funcs": [f], "strategy": "OMIT", "k": 0, "family": "c13_annotated_receiver_omit"})
+    # generators traced several times with different endings (falls off the end / returns a value / yields other types)
+    endings = [(None, INT), (NONE, INT), (STR, INT), (INT, STR)]
+    for n, combo in enumerate(itertools.combinations(endings, 2)):
+        for strategy in ("REPLICATE", "IGNORE"):
+            f = {"name": "gen%d" % n, "container": [], "fkind": "module", "params": [{"name": "a", "kind": "poskw", "default": None}],
+                 "is_gen": True, "ret_ann": "int" if strategy == "IGNORE" else None,
+                 "traces": [{"args": {"a": INT}, "ret": r, "yld": y} for r, y in combo]}
+            cases.append({"funcs": [f], "strategy": strategy, "k": 0, "family": "c13_generator_several_traces"})
     return cases
 
 
@@ -431,8 +469,10 @@ def signature(pid, clause, rec, case):
             cause = "typeddict_base_not_provided"
         elif not rec["unres_sig"] and dup_names:
             cause = "same_class_name_imported_from_two_modules"
-        elif family_is_collision(case) or rec.get("dup_td"):
+        elif rec.get("dup_td") and family_is_collision(case):
             cause = "typeddict_class_name_hint_collision"
+        elif rec.get("dup_td"):
+            cause = "typeddict_classes_collide_although_their_name_hints_differ"
         else:
             cause = "other"
         sig["cause"] = cause
@@ -442,8 +482,38 @@ def signature(pid, clause, rec, case):
     return sig
 
 
+def _pascal(sx):
+    import re
+    return "".join(a[0].upper() + a[1:] for a in re.split("([^a-zA-Z0-9])", sx) if a.isalnum())
+
+
+def _td_hints(t, hint, acc):
+    """Name hints the documented naming rule gives to the anonymous TypedDicts inside type t (hint = parameter /
+    field name; container positions after the first get a numeric suffix)."""
+    if t["k"] == "td":
+        acc.append(_pascal(hint))
+        for f in t["u"]:
+            _td_hints(f["a"][0], f["n"], acc)
+        return
+    kids = t["a"] if t["k"] != "union" else sorted(t["u"], key=absmodel.canon)
+    for i, x in enumerate(kids):
+        _td_hints(x, hint + ("" if i == 0 else str(i + 1)), acc)
+
+
 def family_is_collision(case):
-    return case["family"] == "c11_hint_collision"
+    """Do two TypedDicts of this case get the same class name by the naming rule itself (same parameter name in two
+    functions, names equal after pascal-casing, a parameter named like its function, a field named like its parameter)?"""
+    names = []
+    for f in case["funcs"]:
+        q = "_".join(f["container"] + [f["name"]])
+        for tr in f.get("traces") or []:
+            for n, a in tr["args"].items():
+                _td_hints(a, n, names)
+            if tr.get("ret"):
+                _td_hints(tr["ret"], q, names)
+            if tr.get("yld"):
+                _td_hints(tr["yld"], q + "Yield", names)
+    return len(set(names)) < len(names)
 
 
 def _all_types(rec):
